@@ -1003,6 +1003,26 @@ func (x *SX) assign(lhs ast.Expr, val Term, st *sxState, node ast.Node) {
 }
 
 // lvalue evaluates an assignable expression to a term WITHOUT epoch (an address-like key).
+// loadThrough: *t evaluated now (as the StarExpr case of eval does).
+func (x *SX) loadThrough(t Term, st *sxState) Term {
+	if a, ok := t.(TAddr); ok {
+		if tv, ok := a.X.(TVar); ok && !x.addrTaken[tv.Obj] {
+			if cur, ok := st.env[tv.Obj]; ok {
+				return cur
+			}
+		}
+		switch loc := a.X.(type) {
+		case TIndex:
+			loc.Epoch = st.heap
+			return loc
+		case TSel:
+			loc.Epoch = st.heap
+			return loc
+		}
+	}
+	return TDeref{X: t, Epoch: st.heap}
+}
+
 func (x *SX) lvalue(e ast.Expr, st *sxState) Term {
 	e = unparen(e)
 	switch v := e.(type) {
@@ -2499,6 +2519,14 @@ func (x *SX) call(call *ast.CallExpr, st *sxState, nres int) []evalOut {
 				return x.evalFork(call.Args[0], st)
 			}
 		}
+		if _, toI := tv.Type.Underlying().(*types.Interface); toI {
+			if at := c.typeOf(call.Args[0]); at != nil {
+				if _, fromI := at.Underlying().(*types.Interface); fromI {
+					// interface to interface (`field(v)` with v an Object, `any(x)` with x a List): the same dynamic value, a nil stays nil
+					return x.evalFork(call.Args[0], st)
+				}
+			}
+		}
 		return x.map1(call.Args[0], st, func(t Term, st *sxState) Term { return simplify(TConv{tv.Type, t}) })
 	}
 	// builtin
@@ -2563,6 +2591,27 @@ func (x *SX) call(call *ast.CallExpr, st *sxState, nres int) []evalOut {
 			continue
 		}
 		recv := ro.val
+		if fun != nil && recvExpr != nil && fun.Pkg() == c.Types {
+			// a pointer-receiver method of this package called on an addressable value (`ego.val.push(f)` with `func (s *fields)
+			// push`): the receiver is the address of that location, as the compiler takes it
+			if sig, ok := fun.Type().(*types.Signature); ok && sig.Recv() != nil {
+				if _, mPtr := sig.Recv().Type().(*types.Pointer); mPtr {
+					if rt := c.typeOf(recvExpr); rt != nil {
+						_, xPtr := rt.Underlying().(*types.Pointer)
+						_, xIface := rt.Underlying().(*types.Interface)
+						if !xPtr && !xIface {
+							recv = TAddr{x.lvalue(recvExpr, ro.st)}
+						}
+					}
+				} else if rt := c.typeOf(recvExpr); rt != nil {
+					// a value-receiver method called through a pointer (`line.current()` with line *lineCounter): the receiver is
+					// the value the pointer points to now
+					if _, xPtr := rt.Underlying().(*types.Pointer); xPtr {
+						recv = x.loadThrough(recv, ro.st)
+					}
+				}
+			}
+		}
 		for _, ao := range x.evalArgs(call.Args, ro.st) {
 			if ao.kind != "" {
 				res = append(res, ao)
